@@ -377,8 +377,9 @@ def _pipeline(ctx, fq: str, metric_cls: str, P: str):
         ev("PosePath3D.project")
     pd = ev(f"{metric_cls}.process_data")
     cu, gr = ev("PE.change_unit"), ev("PE.get_result")
-    ctx.require(al and og and len({id(e.node) for e in pj}) == 2 and
-                len(pd) == 1 and cu and gr,
+    ctx.require(al and og and 2 in (len({id(e.node) for e in pj}),
+                                    len({e.data.get("recv") for e in pj}))
+                and len(pd) == 1 and cu and gr,
                 f"{fq}: pipeline steps not found (unknown idiom)")
     seq = [("umeyama/scale alignment", al), ("origin alignment", og),
            ("projection", pj), ("metric", pd), ("unit change", cu),
